@@ -42,6 +42,17 @@ def _tau_job(parity: int) -> Callable[[], Record]:
 
             def thunk() -> Any:
                 rule = it.call(f, [], {"residual_mult": mult, "residual_attn_ratio": ratio})
+                # the rule object is shared by every stack built with the default argument: it must be
+                # a pure function of (index, layers) -- state captured in its closure is protected
+                env_ = getattr(rule, "env", None)
+                while env_ is not None and env_ is not rule.module.env:
+                    for v_ in env_.vars.values():
+                        if isinstance(v_, (dict, list, set)):
+                            ctx.protected[id(v_)] = "state captured by the residual scaling rule (shared between calls)"
+                    env_ = env_.parent
+                layers0 = ctx.fresh_int("layers_of_an_earlier_call")
+                ctx.assume(z3.And(layers0.z > index.z, layers0.z != layers.z))
+                it.call(rule, [index, layers0], {})  # an earlier query of the same rule object for another depth
                 tau_i = it.call(rule, [index, layers], {})
                 tau_n = None
                 return tau_i, tau_n, mult, ratio, index, layers
@@ -62,6 +73,9 @@ def _tau_job(parity: int) -> Callable[[], Record]:
             a2n = am2 if parity == 0 else aa2
             S = _spec_S(ix, L, aa2, am2)
             Sn = _spec_S(ix + 1, L, aa2, am2)
+            from .common import frame_obligations
+
+            frame_obligations(ctx, f"{tag}:rule_is_a_pure_function_of_(index,layers)[parity={parity}]")
             ctx.oblige(f"{tag}:tau_positive[parity={parity}]", t > 0)
             ctx.oblige(f"{tag}:tau_sq_times_S_equals_a_sq[parity={parity}]", z3.Implies(defs, t * t * S == a2))
             ctx.oblige(f"{tag}:S_positive[parity={parity}]", z3.Implies(defs, S > 0))
